@@ -316,12 +316,39 @@ def run(model, col, tier):
               f"`for {unparse(early[0].target) if early else ''} in {unparse(early[0].iter) if early else ''}` runs before the imports are registered: an own struct field or global of an imported type is unknown "
               "at that point (UnknownTypeException), although the same text in one module compiles", CT, early[0] if early else ctm)
     # ---------------- R16.7 the shared default loader is stateless ---------------------
+    from ..state import is_mutable_literal as _iml167
+
+    def _state_of(ci_):
+        """attributes of a class that can differ between two moments of one object's life: stored outside __init__, bound to a
+        container in __init__, or written through (subscript store / mutating call).  Settings copied from constructor
+        parameters (`self.__extension = extension`) are configuration, not state."""
+        out = set()
+        for mname, m in ci_.methods.items():
+            if not m.args.args:
+                continue
+            s_ = m.args.args[0].arg
+            for n in ast.walk(m):
+                tg = n.targets if isinstance(n, ast.Assign) else [n.target] if isinstance(n, (ast.AugAssign, ast.AnnAssign)) else []
+                for t in tg:
+                    b = t
+                    sub = False
+                    while isinstance(b, ast.Subscript):
+                        b, sub = b.value, True
+                    if isinstance(b, ast.Attribute) and isinstance(b.value, ast.Name) and b.value.id == s_:
+                        val = getattr(n, "value", None)
+                        if mname != "__init__" or sub or isinstance(n, ast.AugAssign) or (val is not None and _iml167(val)):
+                            out.add(b.attr)
+                if isinstance(n, ast.Call) and isinstance(n.func, ast.Attribute) and n.func.attr in ("append", "add", "update", "setdefault", "pop", "clear", "extend", "insert", "remove") \
+                        and isinstance(n.func.value, ast.Attribute) and isinstance(n.func.value.value, ast.Name) and n.func.value.value.id == s_:
+                    out.add(n.func.value.attr)
+        return out
+
     linit = lk.own_method("__init__")
     for a, d in zip(linit.args.kwonlyargs, linit.args.kw_defaults):
         if d is not None and isinstance(d, ast.Call):
             ci = model.resolve_class_expr(IR, d.func)
             if ci is not None:
-                state = sorted(ci.instance_attrs())
+                state = sorted(_state_of(ci))
                 col.check(not state, "R16.7", f"{IR}::Linker.__init__ default {a.arg}={unparse(d)}",
                           f"the default {ci.name} object is shared by every Linker and holds no state",
                           f"the default argument `{a.arg}={unparse(d)}` is evaluated once and shared by every Linker, and {ci.name} keeps state in {state}: "
@@ -330,7 +357,7 @@ def run(model, col, tier):
     ld_cls = [model.resolve_class_expr(CT, n.value.func) for n in ast.walk(ctv_init) if isinstance(n, ast.Assign) and isinstance(n.value, ast.Call) and "Loader" in unparse(n.value.func)]
     for ci in ld_cls:
         if ci is not None:
-            col.check(not ci.instance_attrs(), "R16.7", f"{CT}::ComputeTypeVisitor loader {ci.name} is stateless", "every Load reads the module file", f"{ci.name} keeps state {sorted(ci.instance_attrs())}", IR, ci.node)
+            col.check(not _state_of(ci), "R16.7", f"{CT}::ComputeTypeVisitor loader {ci.name} is stateless", "every Load reads the module file", f"{ci.name} keeps state {sorted(_state_of(ci))}", IR, ci.node)
     # ---------------- R16.6 -------------------------------------------------------
     nslc = model.file("nslc.py")
     dumps = [c for c in ast.walk(nslc.tree) if isinstance(c, ast.Call) and dotted(c.func) == "pickle.dump"]
